@@ -39,7 +39,7 @@ ASSUMPTIONS = [
 TRUSTED = "10.0.0.1"
 PREFIX_PEERS = [
     "10.0.0.10", "10.0.0.1 ", "110.0.0.1", "10.0.0", "10.0.0.", "10.0.0.11", " 10.0.0.1", "10.0.0.1.", "010.0.0.1",
-    "10.0.0.1:80", "10.0.0.100",
+    "10.0.0.1:80", "10.0.0.100", "::10.0.0.1", "0::10.0.0.1", "::0:10.0.0.1",
 ]
 OTHER_PEERS = ["10.0.0.2", "192.0.2.7", "127.0.0.1", "::1", "localhost", "2001:db8::1", "10.0.1.1", "198.51.100.10"]
 
